@@ -229,6 +229,21 @@ pub assume_specification<'a, P: core::str::pattern::Pattern> [str::strip_prefix:
     };
 pub assume_specification<'a, P: core::str::pattern::Pattern> [str::starts_with::<P>] (s: &'a str, prefix: P) -> (r: bool)
     ensures r == has_prefix(s@, std_pat_seq(prefix));
+/// vstd states str::len as spec_bytes().len(); in this unit's text model the bytes of a str are enc(chars)
+pub broadcast axiom fn ax_spec_bytes(s: &str) ensures #[trigger] s.spec_bytes() == enc(s@), s.spec_bytes().len() <= usize::MAX;
+// std str slicing helpers (documented behaviour: the result is a prefix / suffix / infix of the receiver; which chars are
+// trimmed is left open, so any use that depends on it cannot be proved and is reported as undecided-or-failing, never assumed)
+pub open spec fn is_prefix_of(t: Seq<char>, s: Seq<char>) -> bool { t.len() <= s.len() && s.subrange(0, t.len() as int) == t }
+pub open spec fn is_suffix_of(t: Seq<char>, s: Seq<char>) -> bool { t.len() <= s.len() && s.subrange(s.len() - t.len(), s.len() as int) == t }
+pub open spec fn is_infix_of(t: Seq<char>, s: Seq<char>) -> bool { exists|k: int| 0 <= k && k + t.len() <= s.len() && #[trigger] s.subrange(k, k + t.len()) == t }
+pub assume_specification<'a, P: core::str::pattern::Pattern> [str::trim_end_matches::<P>] (s: &'a str, pat: P) -> (r: &'a str)
+    where for<'b> <P as core::str::pattern::Pattern>::Searcher<'b>: core::str::pattern::ReverseSearcher<'b>
+    ensures is_prefix_of(r@, s@), r.spec_bytes().len() <= s.spec_bytes().len();
+pub assume_specification<'a, P: core::str::pattern::Pattern> [str::trim_start_matches::<P>] (s: &'a str, pat: P) -> (r: &'a str)
+    ensures is_suffix_of(r@, s@), r.spec_bytes().len() <= s.spec_bytes().len();
+pub assume_specification<'a> [str::trim_end] (s: &'a str) -> (r: &'a str) ensures is_prefix_of(r@, s@), r.spec_bytes().len() <= s.spec_bytes().len();
+pub assume_specification<'a> [str::trim_start] (s: &'a str) -> (r: &'a str) ensures is_suffix_of(r@, s@), r.spec_bytes().len() <= s.spec_bytes().len();
+pub assume_specification<'a> [str::trim] (s: &'a str) -> (r: &'a str) ensures is_infix_of(r@, s@), r.spec_bytes().len() <= s.spec_bytes().len();
 pub assume_specification [u64::from_str_radix] (s: &str, radix: u32) -> (r: Result<u64, core::num::ParseIntError>)
     ensures r.is_ok() == (radix_val(s@, radix) is Some && 0 <= radix_val(s@, radix).unwrap() <= u64::MAX),
         r.is_ok() ==> r.unwrap() == radix_val(s@, radix).unwrap();
